@@ -12,6 +12,7 @@ import re
 
 from .. import env, util
 from ..gen import enum
+from ..model import qast
 from . import c10
 
 PROPERTY = 'C18'
@@ -284,7 +285,7 @@ A_NAMES = ['name', 'age', 'home_town', 'x y', 'Dist (km)', 'q"uote', "it's", 'a1
 B_NAMES = ['id', 'name', 'b col', 'B3']
 
 
-ODD_NAMES = ['', '', '0', 'col1', 'col2', ' lead', 'trail ', 'ü', 'NULL', 'null', 'undefined', 'None', 'false', '0.0']
+ODD_NAMES = ['', '', '0', 'col1', 'col2', ' lead', 'trail ', 'ü', 'NULL', 'null', 'undefined', 'None', 'false', '0.0', 'C:\\new', 'dir\\temp', 'x\\ray', 'back\\slash', 'tab\there', 'q"t\\n', "it's\\t"]
 
 
 def header_items(rng, join, ncols_a, ncols_b, A_NAMES=A_NAMES, B_NAMES=B_NAMES):
@@ -295,8 +296,8 @@ def header_items(rng, join, ncols_a, ncols_b, A_NAMES=A_NAMES, B_NAMES=B_NAMES):
     if idents_a:
         pool += ['a.%s' % rng.choice(idents_a)]
     nm = rng.choice(A_NAMES[:ncols_a])
-    if '"' not in nm and "'" not in nm and nm != '':
-        pool += ['a["%s"]' % nm, "a['%s']" % nm]
+    if nm != '':
+        pool += ['a[%s]' % qast.lit(nm, '"'), 'a[%s]' % qast.lit(nm, "'")]
     pool += ['*', 'a.*', 'NR', 'NF', 'a1 + a2', 'f(a1, a2)', 'f(a1, [a2, 1])', 'f("x, y", a1)', '[a1, a2]', 'f(a1)[0]', "'lit'", '"li,t"', '1',
              'a1 * (2 + 3)', 'f(g(a1, a2), "a)b")', 'f({"k": a1})', "f('a(b', a2)", 'f(a1,a2,[1,[2,3]])', 'a1 == a2', 'f(a1 )', ' a2']
     if join:
@@ -305,7 +306,7 @@ def header_items(rng, join, ncols_a, ncols_b, A_NAMES=A_NAMES, B_NAMES=B_NAMES):
             pool += ['b.%s' % rng.choice(idents_b)]
         nm = rng.choice(B_NAMES[:ncols_b])
         if nm != '':
-            pool += ['b["%s"]' % nm]
+            pool += ['b[%s]' % qast.lit(nm, '"')]
     return pool
 
 
